@@ -89,6 +89,8 @@ func vpC05_O2() {
 	inRange := e2.Cmp(start) >= 0 && e2.Cmp(end) <= 0
 	accepted := forged.Verify(pk, ms)
 	vpAssert("equation-satisfying signature accepted only with a prime exponent inside the interval", !accepted || (inRange && prime))
+	// the verdict does not depend on what was verified before
+	vpAssert("a second verification gives the same verdict", forged.Verify(pk, ms) == accepted)
 	if inRange && prime {
 		vpAssert("equation-satisfying signature with a proper exponent is accepted", accepted)
 	}
